@@ -138,6 +138,25 @@ def run(tier, replay=None):
                 raise vlib.Inconclusive("%s no longer shows the contract violation of the code as built:\n%s" % (cfg, r.out[-2000:]))
             vlib.log("[c16] %s: design as built violates the contract, as expected (%d states)" % (cfg, r.distinct))
     c = dict(C)
+    if not replay and tier == "thorough":
+        # unbounded-history side check (Apalache): the invariant of ChannelMapping_Ind.tla is inductive for all channel counts
+        # 1..5 x 1..5, it implies the contract, Stable is an action invariant - and the pre-fix hand-off (no capacity re-check)
+        # is NOT inductive (negative control)
+        cin = ["--cinit=ConstInit"]
+        runs = [("base", cin + ["--init=Init", "--inv=IndInv", "--length=0"], True, None),
+                ("step", cin + ["--init=IndInit", "--inv=IndInv", "--length=1"], True, None),
+                ("contract", cin + ["--init=IndInit", "--inv=Contract", "--length=0"], True, None),
+                ("stable", cin + ["--init=IndInit", "--inv=Stable", "--length=1"], True, None),
+                ("negative-control", cin + ["--init=IndInit", "--inv=IndInv", "--length=1"], False,
+                 lambda t: t.replace("IF map[k] = v \\/ Count(v) >= Avg", "IF map[k] = v"))]
+        res = []
+        for name, args, want, patch in runs:
+            ok, _ = vlib.run_apalache("ChannelMapping_Ind", args, tag=name, patch=patch)
+            if ok != want:
+                raise vlib.Inconclusive("Apalache side check '%s' of ChannelMapping_Ind.tla: expected %s" %
+                                        (name, "no error" if want else "a counterexample"))
+            res.append({"check": name, "args": " ".join(args), "outcome": "NoError" if ok else "Error (expected)"})
+        c["extra_coverage"] = {"apalache_inductive_invariant": res}
     c["driver_env"] = {"VERIF_C16_VARIANT": variant}
     c["expand_plans"] = expand(known)
     c["more_drivers"] = ["chanmgr"]
